@@ -126,8 +126,52 @@ def tasks(tier):
     for c1, c2 in itertools.combinations_with_replacement(KEY_CLASSES, 2):
         ts.append(('contracts.c13', 'hash_respects_equality', (c1, c2)))
     ts += fc.tasks_c13(tier)
+    ts.append(('contracts.c13', 'init_hash', ()))
     return ts
 
 
 def meta(results, tier):
     return fc.meta_common('C13', results, tier, extra_functions=['diskcache.core.Disk.hash', 'diskcache.core.Disk.put'])
+
+
+def init_hash():
+    """FanoutCache.__init__ takes its routing function from a shard's Disk.hash, unwrapped (no caching
+    layer keyed on Python equality, no indirection that could differ between processes)."""
+    from pyvc.engine import BoundMethod, FuncVal, Unsupported as U
+    ctx = fc.fctx()
+    out = []
+
+    def hook(it, f, a, k):
+        b = it.bind_args(f, a, k)
+        selfv = b['self']
+        disk = Obj(ctx.cls('diskcache.core.Disk'), {'_directory': b.get('directory')})
+        selfv.fields['_disk'] = disk
+        selfv.fields['_directory'] = b.get('directory')
+        it.st.effect('INIT', bound=b)
+        return None
+    ctx.hooks['diskcache.core.Cache.__init__'] = hook
+    try:
+        def run(st):
+            it = ctx.interp(st)
+            obj = ctx.new_obj('diskcache.fanout.FanoutCache', {})
+            it.call(ctx.func('diskcache.fanout.FanoutCache.__init__'), [obj, st.fresh_sv('dir', 'str'), 3], {})
+            return obj
+        for n, p in enumerate(explore(run)):
+            name = 'C13.init.hash_is_disk_hash#%d' % n
+            if p.kind != 'return':
+                out.append(Result(name, 'delegate', 'refuted', ms=0, backend='engine', function='FanoutCache.__init__',
+                                  detail='raises %r' % (p.value,)))
+                continue
+            h = p.value.fields.get('_hash')
+            shards = p.value.fields.get('_shards')
+            ok = isinstance(h, BoundMethod) and isinstance(h.func, FuncVal) and h.func.qualname == 'diskcache.core.Disk.hash' \
+                and isinstance(shards, tuple) and len(shards) == 3 and h.self is shards[0].fields.get('_disk') \
+                and p.value.fields.get('_count') == 3
+            out.append(Result(name, 'delegate', 'proved' if ok else 'refuted', ms=0, backend='engine',
+                              function='FanoutCache.__init__', path=p.decisions,
+                              detail=None if ok else '_hash is %r, not the shard disk\'s hash method' % (h,)))
+    except U as e:
+        out.append(Result('C13.init.hash_is_disk_hash', 'delegate', 'unsupported', ms=0, detail=repr(e)))
+    finally:
+        ctx.hooks.pop('diskcache.core.Cache.__init__', None)
+    return out
